@@ -396,13 +396,19 @@ class ProofBudgetExceeded(Exception):
     pass
 
 
-DEADLINE = [None]
+DEADLINE = [None]        # kept for callers that still set a wall-clock deadline (unused by the rules)
+OPS_LEFT = [None]        # deterministic work budget of the current entailment search (None = unlimited)
+OPS_DONE = [0]
 
 
 def fm_feasible(cons, want_model=False, limit=4000):
-    if DEADLINE[0] is not None:
-        import time as _t
-        if _t.time() > DEADLINE[0]:
+    # The budget counts work (constraint rows handed to the elimination), not seconds: the same search gives the same
+    # verdict whatever else the machine is doing.
+    w = 1 + len(cons)
+    OPS_DONE[0] += w
+    if OPS_LEFT[0] is not None:
+        OPS_LEFT[0] -= w
+        if OPS_LEFT[0] < 0:
             raise ProofBudgetExceeded()
     return _fm_feasible(cons, want_model, limit)
 
